@@ -1,3 +1,8 @@
+mod checks;
+mod driver;
+mod gcmodel;
+mod manifest;
+
 fn main() {
-    vcore::main_with(vec![], &[]);
+    vcore::main_with(vec![checks::c01(), checks::c03()], &[]);
 }
